@@ -1473,7 +1473,7 @@ func TestVerifC13(t *testing.T) {
 
 	t0 := time.Now()
 	pool.runAll(units)
-	t.Logf("C13: in-process parts done in %.1fs", time.Since(t0).Seconds())
+	t.Logf("C13: in-process parts done in %.1fs (framing units: %.1f cpu-s)", time.Since(t0).Seconds(), float64(c13FramingNanos.Load())/1e9)
 	t0 = time.Now()
 
 	// ---- Part C: 32-bit length headers, in a memory-limited child
